@@ -1,6 +1,7 @@
 """C02 driver: exotic cells (pruned / library / Merkle proof / Merkle update) built and parsed; masks, per-level
 hashes and depths recorded for TLC."""
 import base64
+import os
 import random
 import re
 
@@ -183,7 +184,7 @@ def generate(tier, seed, ctx):
         if rng.random() < 0.5:
             out.append(record(heap[:], 'boc', rng, note='random'))
     # the bundled main-net block
-    src = open('/repo/tests/test_cell.py').read()
+    src = open(os.environ.get('VERIF_REPO', '/repo') + '/tests/test_cell.py').read()
     b64 = re.search(r"block_boc = '([^']+)'", src).group(1)
     root = Cell.one_from_boc(base64.b64decode(b64))
     h, _, objs = ck.project([root])
